@@ -5,13 +5,6 @@ Import ListNotations.
 Require Import Nib.C01.Model Nib.C01.Spec.
 Local Open Scope Z_scope.
 
-Fixpoint zlist_eqb (a b : list Z) : bool :=
-  match a, b with
-  | [], [] => true
-  | x :: a', y :: b' => (x =? y) && zlist_eqb a' b'
-  | _, _ => false
-  end.
-
 (** one EditSudoers message: action, contracts, whether it was admissible (sender is root and every
     address parses), and the stored Sudoers.Contracts read back afterwards *)
 Record sudo_step := mk_sudo_step { ss_add : bool; ss_cs : list Z; ss_ok : bool; ss_after : list Z }.
@@ -24,7 +17,9 @@ Inductive case :=
 | COmap (ops : list (omap_op * list Z))                    (* omap sub-model: op, Keys() afterwards *)
 | CSortedKeys (inp out : list Z)                           (* statedb.Storage.SortedKeys *)
 | CAbi (abi : list (Z * Z)) (lookups : list (Z * Z))       (* precompile ABI: (name, selector); (selector, found name or -1) *)
-| CTotalWeight (ws : list (Z * Z)) (out : Z).              (* ValidatorPerformances.TotalRewardWeight *)
+| CTotalWeight (ws : list (Z * Z)) (out : Z)               (* ValidatorPerformances.TotalRewardWeight *)
+| CRange (keys : list Z) (runs : list (list Z * list Z)).  (* omap.SortedMap.Range consumed under several wall clocks:
+                                                              (ms before the 1st, 2nd, … receive; keys received) *)
 
 (** The model is evaluated under two different schedules (identity and reversal); by the theorems
     both agree whenever the mechanism flags hold, so both are compared with the implementation. *)
@@ -59,6 +54,9 @@ Definition mismatch (c : cfg) (k : case) : bool :=
       negb (both (fun π => forallb (fun l => opt_to_z (method_by_id (π []) abi (fst l)) =? snd l) lookups))
   | CTotalWeight ws out =>
       negb (both (fun π => total_weight π [] (kv_of_list (map (fun w => (fst w, mk_perf 0 (snd w) 0 0 0)) ws)) =? out))
+  | CRange keys runs =>
+      negb (both (fun π => forallb (fun r =>
+        zlist_eqb (keys_seen c true π (fun _ => fst r) [] (zset_of keys)) (snd r)) runs))
   end.
 
 (** the property predicate on the OBSERVED values *)
@@ -69,5 +67,6 @@ Definition violates (k : case) : bool :=
   | CAbi abi _ => negb (Pb (OSelectors (map snd abi)))
   | COmap ops => existsb (fun o => negb (Pb (OStored (snd o)))) ops   (* Keys() is the sorted enumeration *)
   | CSortedKeys _ out => negb (Pb (OStored out))
+  | CRange _ runs => negb (Pb (ORange (map snd runs)))
   | _ => false
   end.
